@@ -77,13 +77,16 @@ CLAIMED = {
              "drawn segments individually reversed in reverse order, close kept last and re-targeted) preserves the number of drawn "
              "segments, closed stays closed and open stays open, no drawn segment is lost (reversing all again gives the original list), "
              "the result is connected from the old end back to the old start with the close returning to the new start, and reversing "
-             "twice restores the subpath exactly. The model (whole-path reverse incl. re-assembly in reverse order, and subpath-view "
+             "twice restores the subpath exactly; for whole paths in linked form (any number of such subpaths, every move remembering where "
+             "the previous subpath left the pen) Path.reverse of the reversed path restores the path exactly (C16_path_involution: "
+             "as_subpaths re-cuts the re-linked windows, window reversal commutes with re-linking up to the moves' remembered starts, "
+             "which re-linking overwrites) and the reversed path consists of the reversed windows in reverse order. The model (whole-path reverse incl. re-assembly in reverse order, and subpath-view "
              "reverse) is compared segment-for-segment with the code on every kind sequence up to length 4/6 and on random paths; the "
              "property's relations (per-segment q(t)=p(1-t), kinds per subpath in reverse order, connectivity, points kept, involution, "
              "view-locality, commutation with transforms) are evaluated on the implementation.",
         note="Partial: the theorems require every subpath to begin with its own move; for other paths the statement is false of the code "
-             "(known finding C16-subpath-without-move, witnessed each run). Whole-path involution (re-assembly across subpaths) and the "
-             "two-index swap loop are validated by correspondence, not proved. Arc traversal uses the evaluator decided by C02/C05.",
+             "(known finding C16-subpath-without-move, witnessed each run). The "
+             "two-index swap loop of _reverse_segments is modelled by its result (reverse order of reversed segments) and validated by correspondence, not proved. Arc traversal uses the evaluator decided by C02/C05.",
         technique="Lean 4 proof (ring identities; list induction over chains with reverse/append lemmas) + differential correspondence (exhaustive kind sequences) + relation oracle on the implementation",
         ref="DESIGN.md §4 C16"),
     "C04": dict(
